@@ -648,3 +648,47 @@ def c16_r10(ctx):
     ctx.ob("whole program", n > 200, "%d classes examined for derived attributes that one mutator forgets to reset" % n)
     if n < 200:
         raise AnalysisError("only %d classes examined" % n)
+
+
+@rule("C16", "R11", "K2", "a group that is being built is indexed at its end only where it is known to be non-empty",
+      min_instances=2,
+      clause="In every function of whoosh.qparser, a subscript [0] / [-1] of a local that starts empty (group.empty_copy(), [], list()) and "
+             "is filled as the function goes is dominated, on every incoming path, by a test that the local is non-empty (its truth "
+             "value, len(x), len(x) > 0, not len(x) == 0): a leading operator token finds nothing before it, and the IndexError would "
+             "escape QueryParser.parse().")
+def c16_r11(ctx):
+    prog = ctx.prog
+    n = 0
+    for f in prog.functions.values():
+        if not f.module.name.startswith("whoosh.qparser"):
+            continue
+        an = norm.assigned_names(f.node)
+        sites = []
+        for x in ast.walk(f.node):
+            if isinstance(x, ast.Subscript) and isinstance(x.ctx, ast.Load) and isinstance(x.value, ast.Name) \
+                    and norm.canon(x.slice) in ("(-1)", "0", "-1"):
+                vals = [v for v in an.get(x.value.id, []) if v is not None]
+                grown = any((isinstance(v, ast.List) and not v.elts) or
+                            (isinstance(v, ast.Call) and norm.call_name(v) in ("empty_copy", "list") and not v.args) for v in vals)
+                if grown:
+                    sites.append(x)
+        if not sites:
+            continue
+        fa = guards.Facts(f)
+        for x in sites:
+            n += 1
+            ctx.saw(f)
+            node = fa.node_of(x)
+            alts = fa.alternatives(node) if node is not None else None
+            nm = x.value.id
+            inline = guards.expr_facts(cfgmod.node_exprs(node)[0], x, frozenset(), fa.textfn) if node is not None and cfgmod.node_exprs(node) else None
+
+            def nonempty(a_):
+                a_ = set(a_) | set(inline or ())
+                return any((p == "T" and t in (nm, "len(%s)" % nm, "(0 < len(%s))" % nm)) or
+                           (p == "F" and t in ("(0 == len(%s))" % nm, "(len(%s) == 0)" % nm, "(len(%s) < 1)" % nm)) for (p, t) in a_)
+            ok = bool(alts) and all(nonempty(a_) for a_ in alts)
+            ctx.ob(f, ok, "%s is read only where `%s` is known to be non-empty" % (norm.canon(x), nm),
+                   detail="nothing may have been added to `%s` yet: IndexError escapes the parser" % nm, loc=ctx.nodeloc(f, x))
+    if n < 2:
+        raise AnalysisError("only %d end-indexing sites found in the parser" % n)
